@@ -518,6 +518,12 @@ func asiHazard(t *Tok) bool {
 // or tagged, so after a line break a `(`, `[` or backtick is an offending token
 // and ASI applies: `x = a++ <LF> (b)` is two statements.
 func afterPostfixUpdate(prev, next *Tok) bool {
+	if prev != nil && prev.Kind == Word && prev.Role == Keyword && prev.Text == "return" {
+		// a bare `return` followed by a line break is complete (restricted
+		// production): whatever starts the next line - also ( [ - + or a
+		// backtick - starts a new statement
+		return true
+	}
 	if prev == nil || !prev.PostfixOp {
 		return false
 	}
@@ -636,10 +642,11 @@ func Render(ch Chooser, toks []*Tok, opt Options) string {
 		if !decided {
 			must := prev != nil && t.Kind != EOF && needSep(prev.Rendered, t.Rendered, prev.Kind, t.Kind)
 			nlOK := !t.NoNLBefore
-			if t.Kind == Term {
-				// A line break before `;` is legal ECMAScript, but goja (the
-				// reference parser) applies ASI at the break and then sees an
-				// empty statement, which breaks `if (a) b\n; else c`.
+			if t.Kind == Term && i+1 < len(toks) && toks[i+1].Kind == Word && toks[i+1].Role == Keyword && toks[i+1].Text == "else" {
+				// A line break before `;` is legal ECMAScript (the `;` continues the
+				// statement, no ASI), but goja (the reference parser) applies ASI at
+				// the break and then sees an empty statement.  In statement lists the
+				// shape extraction drops those; `if (a) b\n; else c` it cannot parse.
 				nlOK = false
 			}
 			if opt.Random {
